@@ -49,12 +49,46 @@ type Ctx struct {
 	addrTk      map[*ssa.Function]bool
 	escCache    map[string][]escLine
 	thorough    bool
+	plainCtx    *Ctx // the same program without helper expansion (lazily loaded by plain)
 	gwMemo      map[*ssa.Global]bool
 	ExpandNotes []string        // what the helper expansion did (inline.go)
 	poolNewFns  []*ssa.Function // New functions of the sync.Pools met by rule E2 (filled by poolNewType)
 }
 
 // Load type-checks the root module of repo and builds SSA for the whole program.
+// loadWithoutExpansion: Load applies the rename normalisation but leaves helper functions where they are (see Ctx.plain).
+var loadWithoutExpansion bool
+
+// plain returns the program with renamed declarations read under their reference names but WITHOUT the helper expansion:
+// every function of the compiled program exists in it under its own lines. Rules that map facts reported by the compiler
+// (file:line of a heap site) onto functions use it, because an expanded-and-dropped helper has no lines of its own any more.
+func (c *Ctx) plain() *Ctx {
+	expanded := false
+	for _, n := range c.ExpandNotes {
+		if strings.HasPrefix(n, "expanded ") || strings.HasPrefix(n, "dropped ") {
+			expanded = true
+		}
+	}
+	if !expanded {
+		return c
+	}
+	if c.plainCtx != nil {
+		return c.plainCtx
+	}
+	loadWithoutExpansion = true
+	defer func() { loadWithoutExpansion = false }()
+	keep := tableCtx
+	p, err := Load(c.Repo, c.GOARCH)
+	tableCtx = keep
+	if err != nil {
+		return c
+	}
+	p.thorough = c.thorough
+	p.useCHA = c.useCHA
+	c.plainCtx = p
+	return p
+}
+
 func Load(repo, goarch string) (*Ctx, error) {
 	env := []string{}
 	for _, e := range os.Environ() {
@@ -177,7 +211,7 @@ func Load(repo, goarch string) (*Ctx, error) {
 			}
 			strEmitMemo = map[*ssa.Function]bool{}
 		}
-		for pass := 1; pass <= 4; pass++ {
+		for pass := 1; pass <= 4 && !loadWithoutExpansion; pass++ {
 			ov, notes := expandHelpers(mod, pkgs[0].Fset, readSrc, pass, skip)
 			if len(ov) == 0 {
 				break
@@ -221,6 +255,7 @@ func Load(repo, goarch string) (*Ctx, error) {
 			}
 		}
 	}
+	tableCtx = c
 	c.ByPath = by
 	c.Pkgs = mod
 	sort.Slice(c.Pkgs, func(i, j int) bool { return c.Pkgs[i].PkgPath < c.Pkgs[j].PkgPath })
